@@ -186,17 +186,18 @@ func verifConstRound(c any) (any, bool, bool) {
 // The indexed view of a reloaded table holds, slot by slot, the saved symbols: slot k is a symbol with the name and the
 // index of definition k - whatever names occur in the by-name view (a block symbol may carry the name of an outer symbol:
 // seed C17h merged such a pair into one object and left the block symbol's slot nil).
-// (that slot k carries the NAME and INDEX of definition k is not proved here: those two conjuncts did not discharge and
-// were left out rather than assumed; proved: same length, no nil slot, every slot an object allocated by this load.)
-//@ spec symsok(t, d) = len(t.symbols) == len(d.Symbols) && forall(k, 0, len(d.Symbols), t.symbols[k] != nil)
-//@ spec symsnew(t) = forall(k, 0, len(t.symbols), fresh(t.symbols[k]))
+//@ spec symsok(t, d) = len(t.symbols) == len(d.Symbols) && forall(k, 0, len(d.Symbols), t.symbols[k] != nil && t.symbols[k].name == d.Symbols[k].Name && t.symbols[k].index == d.Symbols[k].Index)
+// (isalloc: the slot's object exists by now - without it nothing keeps the object allocated in the current iteration
+// apart from the ones of earlier iterations, and its initialising stores would seem to overwrite their fields)
+//@ spec symsnew(t) = forall(k, 0, len(t.symbols), fresh(t.symbols[k]) && isalloc(t.symbols[k]))
 //@ func symbolTableFromDefinition
 //@ props C05 C17
 //@ commute 1
 //@ expand symbolFromDefinition
 //@ trusted except C17.symtab.total C17.symtab.symbols
 //@ invariant[t] 1: table != nil && fresh(table) && len(table.symbols) == iter && (cap(table.symbols) == 0 || fresh(table.symbols))
-//@ invariant[nn] 1: forall(k, 0, len(table.symbols), table.symbols[k] != nil && fresh(table.symbols[k]))
+//@ invariant[nn] 1: forall(k, 0, len(table.symbols), table.symbols[k] != nil && fresh(table.symbols[k]) && isalloc(table.symbols[k]))
+//@ invariant[nm] 1: forall(k, 0, len(table.symbols), table.symbols[k].name == def.Symbols[k].Name && table.symbols[k].index == def.Symbols[k].Index)
 //@ invariant 2: table != nil && fresh(table) && symsok(table, def) && symsnew(table)
 //@ invariant 3: table != nil && fresh(table) && symsok(table, def) && symsnew(table)
 //@ invariant 4: table != nil && fresh(table) && (len(def.Children) == 0 ==> symsok(table, def))
